@@ -92,6 +92,25 @@ pub struct Fail {
     pub message: String,
 }
 
+/// A message with pointer-width integer fields (C12, known finding F3: rkyv is built with `size_32`).
+#[repr(C)]
+#[derive(Serialize, Deserialize, Archive, PartialEq, Debug, Clone)]
+#[archive(check_bytes)]
+pub struct Wide {
+    pub offset: usize,
+    pub delta: isize,
+}
+
+#[datacake_rpc::async_trait]
+impl Handler<Wide> for EchoSvc {
+    type Reply = String;
+    async fn on_message(&self, msg: Request<Wide>) -> Result<Self::Reply, Status> {
+        // what the handler observes
+        let w: Wide = msg.deserialize_view().map_err(Status::internal)?;
+        Ok(format!("{} {}", w.offset, w.delta))
+    }
+}
+
 /// A request whose reply is `size` bytes, each `id as u8` (C14: faults while a reply BODY is in flight).
 #[repr(C)]
 #[derive(Serialize, Deserialize, Archive, PartialEq, Debug, Clone)]
@@ -279,6 +298,7 @@ impl RpcService for EchoSvc {
         registry.add_handler::<Payload>();
         registry.add_handler::<Fail>();
         registry.add_handler::<Fetch>();
+        registry.add_handler::<Wide>();
     }
 }
 
@@ -527,6 +547,19 @@ impl Domain for RpcDomain {
                         Err(_) => "echo undecodable".to_string(),
                     },
                     Err(s) => format!("echo {}", status_str(&s)),
+                }
+            },
+            "wide" => {
+                // wide <offset> <delta>: a message with a `usize` and an `isize` field; prints what the handler observed
+                let (offset, delta) = (p_u64(t[1]) as usize, t[2].parse::<i64>().expect("delta") as isize);
+                self.server();
+                let client = RpcClient::<EchoSvc>::new(Channel::connect(self.addr));
+                match runtime().block_on(client.send(&Wide { offset, delta })) {
+                    Ok(reply) => match reply.deserialize_view() {
+                        Ok(seen) => { let seen: String = seen; format!("wide seen={}", seen) },
+                        Err(_) => "wide undecodable".to_string(),
+                    },
+                    Err(s) => format!("wide {}", status_str(&s)),
                 }
             },
             "proxy" => {
